@@ -195,9 +195,9 @@ def logItem (q : Quirks) (ops : Ops σ) (c : SelCtx σ) : Core σ → List (Fram
           | none => [])
        | none => []) ++ logBody q ops c body (.ns name :: sk)
   | .media a body, sk =>
-      logBody q ops c body (atFrame (.media a) (!c.excluded || q.atRootKeepsRule) sk :: sk)
+      logBody q ops { c with excluded := false } body (atFrame (.media a) (!c.excluded || q.atRootKeepsRule) sk :: sk)
   | .atrule n a body, sk =>
-      logBody q ops (if ops.isKeyframes n then {} else { c with excluded := c.excluded && ops.isSupports n }) body
+      logBody q ops (if ops.isKeyframes n then {} else { c with excluded := false }) body
         (atFrame (.atrule n a) (!(ops.isFlat n || !(!c.excluded || q.atRootKeepsRule))) sk :: sk)
   | .atroot (some sel) body, sk =>
       logBody q ops { s := some (ops.resolveRef c.getBackref sel), backref := c.getBackref } body
@@ -365,7 +365,7 @@ theorem emitItem_refines (q : Quirks) (hh : q.atRuleHoists = false) (hm : q.medi
     · cases h
     · next st2 h2 =>
       rw [startMedia_eq] at h2
-      have ih := emitBody_refines q hh hm hs ops c body _ st2 h2
+      have ih := emitBody_refines q hh hm hs ops _ body _ st2 h2
       have hb := block_refines q hh hm hs ops st st2 st' _ _ (atFrame_view _ _ _) ih (liftInv_ok' _ _ h)
       simp only [atFrame_skel] at hb
       simpa only [logItem] using hb
